@@ -57,6 +57,7 @@ def run(cx, chk):
                     chk.violation("C03.R8", "%s|%s" % (f["q"], st.src.split("#")[0]),
                                   "the eviction callback runs while node %s is linked=%s indexed=%s: if it unwinds, the operation ends with a chain whose nodes are not exactly the entries of the index"
                                   % (fmt_val(node), st.link if L else False, st.index if I else False), g["span"]["file"], e.get("ln"), g["q"], ["root " + f["q"]], cfg)
+        ntrun.dup_source_drops(chk, cfg, F, f, p, "C03.R11")
         if ntrun.is_teardown(f) and f["q"].startswith("<lru::raw::RawLRU"):
             frees = [e for e in w.events_on if e[1] == "free-sentinel"]
             reboxes = [e for e in w.events_on if e[1] == "rebox"]
@@ -89,6 +90,7 @@ def run(cx, chk):
         for q, (n, bad) in seen.items():
             if not bad:
                 chk.ob("C03.R7", "%s:%s" % (cfg, q), "typestate holds on %d own-key-miss paths" % n)
+    chk.rule("C03.R11", "no value is dropped at its source after ptr::read copied it into a node (the node would keep a dangling value): engine of C04.R6")
     chk.rule("C03.R9", "one node per key: put_nonnull's map.insert may only meet a key that is in no other retained list (engine of C01.R4) - two nodes for one key leave an index key pointing into the other node")
     chk.rule("C03.R10", "no safe signature hands out a reference or iterator that is not tied to the borrow of the cache (engine of C19.S1/S2): such a value outlives purge/drop and dereferences freed nodes")
     from . import c01, c19
